@@ -69,6 +69,7 @@ func (l *linkDialer) executeLinkDialer(
 	}
 
 	// success
+	verifLinkDialerStore(l.c, l.key.peerID, l.key.dialAddress, lnk)
 	l.lnk.SetValue(lnk)
 	return nil
 }
